@@ -1503,6 +1503,9 @@ class _Math:
             c._add(app > 0)
             c._add(z3.Implies(t == 0, app == 1))
             self._mono(t, app, prev)
+            if z3.is_add(t) and len(t.children()) == 2:
+                a, b = t.children()
+                c._add(app == self.pow10(R(a)).t * self.pow10(R(b)).t)      # 10**(a+b) = 10**a * 10**b
         return self._app('pow10', x, lemma)
 
     def _root(self, name, x, cons):
